@@ -4,14 +4,12 @@
             BlockReader made of the implementation's final file (evaluated by the harness)
    output = (openresult (stepobs ...) finalfile), stepobs = (out changed nidx),
             nidx = number of records in the store's insertion index after the step.
-   The steps are Fault.fstep (the functions of Store.v, the ones the theorems are about).  For the blockstore (kind 0) the verif
-   hook reaches the data writer only: Finalize writes through the *os.File, so the script is
-   cleared when a finalize operation starts (theorems cover scripts with faults there too). *)
+   The steps are Fault.fstep (the functions of Store.v, the ones the theorems are about).  One script
+   entry per underlying WriteAt / Write call and per Truncate call of a rewind.  For the blockstore
+   (kind 0) the verif hooks reach the data writer and the writes of Finalize; the entries of the
+   open phase must be "no fault". *)
 From Coq Require Import Strings.String.
 From GoCar Require Import Bytes Varint Cid Header Frame V2Header Index Store Val RunStore Fault.
-
-Definition clear_faults (s : wstate) : wstate :=
-  set_dev s (mkdev (d_file (ws_dev s)) (d_log (ws_dev s)) []) (ws_pos s).
 
 Definition v_fop (op : val) : option fop :=
   let c := vB (vnth 1 op) in
@@ -39,8 +37,7 @@ Section Run.
       match v_fop opv with
       | None => (rev (VL [v_out (OErr EOracleMiss); VN 0; VN 0] :: acc), ws_file s)
       | Some op =>
-        let s0 := if (kn =? 0) && is_finalize op then clear_faults s else s in
-        let '(s', o) := fstep hdrdec kn s0 op in
+        let '(s', o) := fstep hdrdec kn s op in
         let changed := negb (bytes_eqb (ws_file s) (ws_file s')) in
         fsteps kn s' t (VL [v_out o; v_of_bool changed; VN (N.of_nat (length (ws_idx s')))] :: acc)
       end
